@@ -569,7 +569,23 @@ fn zoo(thorough: bool) -> Vec<S> {
             z.push(S::Str(t.into(), 2));
         }
     }
-    for b in [&b""[..], b"a", b"ab", b"\xff", b"\x00"] {
+    // string contents x representations: NULs (leading / middle / trailing / repeated), strings that are prefixes
+    // of each other, and the lengths around the inline-buffer limit (21 / 22 / 23 bytes, with and without a
+    // trailing NUL or a multi-byte character across the limit): every text as `&str` (inline when it fits),
+    // `Arc<str>` (heap) and — a few in quick, all in thorough — safe string
+    let s21 = &s22[..21];
+    let edge_texts: Vec<String> = vec![
+        "\0".into(), "a\0".into(), "\0a".into(), "a\0b".into(), "a\0\0".into(), "ab\0".into(), "abc".into(), "abcd".into(),
+        s21.into(), format!("{s21}\0"), format!("{s22}\0"), format!("{}\0\0", &s22[..20]), format!("{s21}é"), format!("{}é", &s22[..20]),
+    ];
+    for (n, t) in edge_texts.iter().enumerate() {
+        z.push(S::Str(t.clone(), 0));
+        z.push(S::Str(t.clone(), 1));
+        if thorough || n % 4 == 1 {
+            z.push(S::Str(t.clone(), 2));
+        }
+    }
+    for b in [&b""[..], b"a", b"ab", b"\xff", b"\x00", b"a\x00"] {
         z.push(S::Bytes(b.to_vec()));
     }
     let nan = S::F(0x7ff8_0000_0000_0000);
@@ -1541,6 +1557,8 @@ fn lk_keys() -> Vec<S> {
         s0("abc"), S::Str("abc".into(), 1), S::Str("abc".into(), 2), S::Bytes(b"abc".to_vec()), s0("a b"), s0("1"),
         S::Bytes(b"1".to_vec()), i(1), S::U64(1), fbits(1.0), S::Bool(true), S::None, s0(""), S::Bytes(vec![]),
         s0("True"), S::Str(s23.into(), 0), S::Bytes(s23.as_bytes().to_vec()), S::Bytes(vec![0xff]), i(0), S::Bool(false),
+        // a string with a trailing NUL, inline and on the heap: `abc` is a prefix of it
+        s0("abc\0"), S::Str("abc\0".into(), 1),
     ]
 }
 
@@ -2047,7 +2065,8 @@ fn rand_scalar(rng: &mut Rng) -> S {
             if rng.chance(1, 4) { S::F(rng.next()) } else if rng.chance(1, 8) { S::F(0x7ff8_0000_0000_0000) } else { fbits(*rng.pick(&fl)) }
         }
         8 | 9 => {
-            let t = *rng.pick(&["", "a", "A", "b", "ab", "é", "1", "abcdefghijklmnopqrstuvwxyz"]);
+            let t = *rng.pick(&["", "a", "A", "b", "ab", "é", "1", "abcdefghijklmnopqrstuvwxyz", "a\0", "\0", "ab\0", "a\0b",
+                "abcdefghijklmnopqrstu", "abcdefghijklmnopqrstuv", "abcdefghijklmnopqrstu\0", "abcdefghijklmnopqrstuvw"]);
             S::Str(t.into(), rng.below(3) as u8)
         }
         10 => S::Bytes(rng.pick(&[&b""[..], b"a", b"ab", b"\xff"]).to_vec()),
